@@ -169,9 +169,17 @@ func c12Writer(r *eng.Run) {
 	var hist []string
 	pos := 0
 	steps := 1 + r.T.Int(sim.LHist, 6)
+	// The empty message can be sent without a single Write call.
+	noWrite := len(msg) == 0 && r.T.Bool(sim.LHist)
+	if noWrite {
+		r.Probe("empty_message_without_a_write_call")
+	}
 	for i := 0; i < steps; i++ {
 		switch r.T.Int(sim.LHist, 4) {
 		case 0, 1:
+			if noWrite {
+				continue
+			}
 			k := r.T.Int(sim.LSeg, len(msg)-pos+1)
 			if r.T.Bool(sim.LSeg) {
 				k = minInt(k, 1+r.T.Int(sim.LSeg, 9)) // small writes straddle the 4-byte window
@@ -189,10 +197,12 @@ func c12Writer(r *eng.Run) {
 			}
 		}
 	}
-	if n, err := w.Write(msg[pos:]); err != nil || n != len(msg)-pos {
-		r.Failf("unexpected_error", "Write(%d) = %d, %v", len(msg)-pos, n, err)
+	if !noWrite {
+		if n, err := w.Write(msg[pos:]); err != nil || n != len(msg)-pos {
+			r.Failf("unexpected_error", "Write(%d) = %d, %v", len(msg)-pos, n, err)
+		}
+		hist = append(hist, fmt.Sprintf("Write(%d)", len(msg)-pos))
 	}
-	hist = append(hist, fmt.Sprintf("Write(%d)", len(msg)-pos))
 	// The message ends with Flush [, Close] - or, the compressor being a
 	// closer (compress/flate is), with Close alone, which flushes what is
 	// pending and ends the stream.
@@ -657,16 +667,22 @@ func c12Helpers(r *eng.Run) {
 		// ... and one whose Flush is right but whose Close appends a trailer
 		// (a checksum, zlib style) or fails.
 		closeFails := r.T.Bool(sim.LFault)
+		tr := drawTrailer(r)
 		trailer := wsflate.Helper{
 			Compressor: func(d io.Writer) wsflate.Compressor {
 				f, _ := flate.NewWriter(d, 5)
-				return trailerCompressor{f, d, closeFails}
+				return trailerCompressor{f, d, closeFails, tr}
 			},
 			Decompressor: func(src io.Reader) wsflate.Decompressor { return flate.NewReader(src) },
 		}
 		if p, err := trailer.Compress(keep); err == nil {
 			if got, ierr := inflateIndependent(p); ierr != nil || !bytes.Equal(got, keep) || closeFails {
-				r.Failf("corrupt_message_reported_as_success", "a Helper whose compressor's Close %s returned %d bytes and no error (inflate: %v)", map[bool]string{true: "fails", false: "appends a trailer"}[closeFails], len(p), ierr)
+				r.Failf("corrupt_message_reported_as_success", "a Helper whose compressor's Close %s returned %d bytes and no error (inflate: %v)", map[bool]string{true: "fails", false: fmt.Sprintf("appends the trailer %x", tr)}[closeFails], len(p), ierr)
+			}
+		}
+		if fr, err := trailer.CompressFrame(ws.NewBinaryFrame(keep)); err == nil {
+			if got, ierr := inflateIndependent(fr.Payload); ierr != nil || !bytes.Equal(got, keep) || closeFails {
+				r.Failf("corrupt_message_reported_as_success", "CompressFrame of a Helper whose compressor's Close %s returned %d bytes and no error (inflate: %v)", map[bool]string{true: "fails", false: fmt.Sprintf("appends the trailer %x", tr)}[closeFails], len(fr.Payload), ierr)
 			}
 		}
 		lvl := []int{0, 1, 9}[r.T.Int(sim.LCfg, 3)]
@@ -709,9 +725,25 @@ func c12Helpers(r *eng.Run) {
 // trailerCompressor compresses correctly; its Close ends the stream and then
 // appends four more bytes (a checksum), or fails.
 type trailerCompressor struct {
-	fw    *flate.Writer
-	dst   io.Writer
-	fails bool
+	fw      *flate.Writer
+	dst     io.Writer
+	fails   bool
+	trailer []byte
+}
+
+// drawTrailer: what such a compressor's Close leaves behind the flushed
+// stream - a checksum behind a final block, or (zlib's Z_FINISH) just an empty
+// final fixed-Huffman block.
+func drawTrailer(r *eng.Run) []byte {
+	switch r.T.Int(sim.LFault, 4) {
+	case 0:
+		return []byte{0xde, 0xad, 0xbe, 0xef}
+	case 1:
+		return []byte{0x03, 0x00}
+	case 2:
+		return []byte{0x03, 0x00, 0x12, 0x34, 0x56, 0x78}
+	}
+	return patBytes(7, 0, 1+r.T.Int(sim.LLen, 6))
 }
 
 func (c trailerCompressor) Write(p []byte) (int, error) { return c.fw.Write(p) }
@@ -720,10 +752,15 @@ func (c trailerCompressor) Close() error {
 	if c.fails {
 		return ErrInjected
 	}
-	if err := c.fw.Close(); err != nil {
+	if len(c.trailer) == 4 {
+		// A final stored block, then the checksum.
+		if err := c.fw.Close(); err != nil {
+			return err
+		}
+	} else if err := c.fw.Flush(); err != nil {
 		return err
 	}
-	_, err := c.dst.Write([]byte{0xde, 0xad, 0xbe, 0xef})
+	_, err := c.dst.Write(c.trailer)
 	return err
 }
 
@@ -772,11 +809,64 @@ type closingCompressor struct{ *faultyCompressor }
 
 func (c closingCompressor) Close() error { return c.fw.Close() }
 
+// c12TrailerCompressor: a Writer on a compressor whose Flush is right and
+// whose Close is not (it appends a trailer or fails): Close must not report
+// success for a stream that no longer ends with the tail, unless what was
+// produced still is the message.
+func c12TrailerCompressor(r *eng.Run) {
+	msg := drawFlateMsg(r)
+	fails := r.T.Chance(sim.LFault, 1, 4)
+	tr := drawTrailer(r)
+	dst := NewPipe(r, nil)
+	w := wsflate.NewWriter(dst, func(d io.Writer) wsflate.Compressor {
+		f, _ := flate.NewWriter(d, 5)
+		return trailerCompressor{f, d, fails, tr}
+	})
+	r.Fault("compressor_close_leaves_a_trailer")
+	var calls []string
+	allNil := true
+	do := func(name string, err error) {
+		calls = append(calls, name+"="+errStr(err))
+		if err != nil {
+			allNil = false
+		}
+	}
+	k := r.T.Int(sim.LSeg, len(msg)+1)
+	_, e := w.Write(msg[:k])
+	do("Write", e)
+	if r.T.Bool(sim.LHist) {
+		do("Flush", w.Flush())
+	}
+	_, e = w.Write(msg[k:])
+	do("Write", e)
+	do("Flush", w.Flush())
+	if !allNil {
+		r.Failf("unexpected_error", "compressor with a conformant Flush: %v", calls)
+	}
+	if got, ierr := inflateIndependent(dst.Out); ierr != nil || !bytes.Equal(got, msg) {
+		r.Failf("roundtrip_mismatch", "after Flush the output does not inflate to the message (%v)", ierr)
+	}
+	cerr := w.Close()
+	do("Close", cerr)
+	r.Note("C12 compressor whose Close leaves %x (fails=%v): %v", tr, fails, calls)
+	if cerr == nil {
+		if got, ierr := inflateIndependent(dst.Out); ierr != nil || !bytes.Equal(got, msg) || fails {
+			r.Failf("corrupt_message_reported_as_success", "Close of a compressor that %s returned nil; the output (+00 00 ff ff) inflates to %d of %d bytes (%v)", map[bool]string{true: "fails", false: fmt.Sprintf("appends the trailer %x", tr)}[fails], len(got), len(msg), ierr)
+		}
+	} else if w.Err() == nil {
+		r.Failf("error_not_sticky", "Close returned %v but Err() is nil", cerr)
+	}
+}
+
 var compFaultNames = []string{"compressor_flush_without_sync", "compressor_drops_last_byte", "compressor_write_error", "compressor_stray_byte_after_sync", "", ""}
 
 func c12FaultyCompressor(r *eng.Run) {
 	r.SetEntry("wsflate.Writer/custom-compressor")
-	mode := r.T.Int(sim.LFault, 6) // 4: correct without Close, 5: correct with Close
+	mode := r.T.Int(sim.LFault, 7) // 4: correct without Close, 5: correct with Close, 6: Flush right, Close leaves a trailer
+	if mode == 6 {
+		c12TrailerCompressor(r)
+		return
+	}
 	msg := drawFlateMsg(r)
 	if len(msg) < 16 {
 		msg = append(msg, patBytes(1, 0, 16)...)
